@@ -82,22 +82,27 @@ def tokval(t):
 
 
 class GenTransformer(Transformer):
-    def __init__(self, name, workflow, fn="add", k=0, nin=1, fail_tag=None, fail_iter=None):
+    def __init__(self, name, workflow, fn="add", k=0, nin=1, fail_tag=None, fail_iter=None, delay=0.0):
         super().__init__(name, workflow)
         self.fn, self.k, self.nin, self.fail_tag, self.fail_iter = fn, k, nin, fail_tag, fail_iter
+        self.delay = delay      # seconds slept before a token is transformed: controls the ARRIVAL order downstream
 
     @classmethod
     async def _load(cls, row: MutableMapping[str, Any], loading_context: DatabaseLoadingContext):
         p = row["params"]
         return cls(name=row["name"], workflow=await loading_context.load_workflow(row["workflow"]),
-                   fn=p["fn"], k=p["k"], nin=p["nin"], fail_tag=p["fail_tag"], fail_iter=p.get("fail_iter"))
+                   fn=p["fn"], k=p["k"], nin=p["nin"], fail_tag=p["fail_tag"], fail_iter=p.get("fail_iter"),
+                   delay=p.get("delay", 0.0))
 
     async def _save_additional_params(self, database: Database) -> MutableMapping[str, Any]:
         return cast(dict, await super()._save_additional_params(database)) | {
-            "fn": self.fn, "k": self.k, "nin": self.nin, "fail_tag": self.fail_tag, "fail_iter": self.fail_iter}
+            "fn": self.fn, "k": self.k, "nin": self.nin, "fail_tag": self.fail_tag, "fail_iter": self.fail_iter,
+            "delay": self.delay}
 
     async def transform(self, inputs):
         tag = get_tag(inputs.values())
+        if self.delay:
+            await asyncio.sleep(self.delay)
         if self.fail_tag is not None and tag == self.fail_tag:
             raise WorkflowExecutionException(f"injected failure in {self.name} on tag {tag}")
         if self.fail_iter is not None and tag.split(".")[-1] == str(self.fail_iter):
